@@ -31,26 +31,20 @@ type skeleton struct {
 func buildSkeletons() []skeleton {
 	s := []skeleton{
 		{Name: "select", Tmpl: "{C}SELECT {I}* FROM {T}{POST}", Core: true},
-		{Name: "select-alias-where", Tmpl: "{C}SELECT {I}t.* FROM {T} t WHERE 1=1{POST}"},
 		{Name: "cte", Tmpl: "{C}WITH c AS (SELECT {I}* FROM {T}) SELECT * FROM c{POST}", Core: true},
 		{Name: "cte-shadows-measurement", Tmpl: "{C}WITH cpu AS (SELECT {I}* FROM {T}) SELECT * FROM cpu{POST}", Base: "cte"},
-		{Name: "cte-materialized", Tmpl: "{C}WITH c AS MATERIALIZED (SELECT {I}* FROM {T}) SELECT * FROM c{POST}", Base: "cte"},
 		{Name: "cte-recursive", Tmpl: "{C}WITH RECURSIVE c AS (SELECT {I}* FROM {T}) SELECT * FROM c{POST}", Base: "cte"},
-		{Name: "cte-second", Tmpl: "{C}WITH x AS (SELECT 1), c AS (SELECT {I}* FROM {T}) SELECT * FROM c{POST}", Base: "cte"},
 		{Name: "subquery-from", Tmpl: "{C}SELECT * FROM (SELECT {I}* FROM {T}) s{POST}", Core: true},
 		{Name: "subquery-where-in", Tmpl: "{C}SELECT {I}* FROM {P} WHERE host IN (SELECT host FROM {T}){POST}", Core: true},
 		{Name: "subquery-where-exists", Tmpl: "{C}SELECT {I}* FROM {P} WHERE EXISTS (SELECT 1 FROM {T}){POST}", Base: "subquery-where-in"},
 		{Name: "subquery-where-scalar", Tmpl: "{C}SELECT {I}* FROM {P} WHERE (SELECT count(*) FROM {T}) >= 0{POST}", Base: "subquery-where-in"},
-		{Name: "subquery-select-scalar", Tmpl: "{C}SELECT {I}(SELECT count(*) FROM {T}) AS n{POST}", Core: true},
+		{Name: "subquery-select-scalar", Tmpl: "{C}SELECT {I}(SELECT count(*) FROM {T}) AS n{POST}"},
 		{Name: "comma-join", Tmpl: "{C}SELECT {I}* FROM {P}{A}, {T} b{POST}", Core: true},
-		{Name: "comma-join-first", Tmpl: "{C}SELECT {I}* FROM {T} a, {P} b{POST}", Core: true, Base: "comma-join"},
+		{Name: "comma-join-first", Tmpl: "{C}SELECT {I}* FROM {T} a, {P} b{POST}", Base: "comma-join"},
 		{Name: "comma-join-after-subquery", Tmpl: "{C}SELECT {I}* FROM (SELECT 1) a, {T} b{POST}", Base: "comma-join"},
 		{Name: "comma-join-after-on", Tmpl: "{C}SELECT {I}* FROM {P} a JOIN {P} c ON a.host = c.host{ONTAIL}, {T} b{POST}", Core: true, Base: "comma-join"},
 		{Name: "union-all", Tmpl: "{C}SELECT {I}* FROM {P} UNION ALL SELECT * FROM {T}{POST}", Core: true},
 		{Name: "union-all-first", Tmpl: "{C}SELECT {I}* FROM {T} UNION ALL SELECT * FROM {P}{POST}", Base: "union-all"},
-		{Name: "union", Tmpl: "{C}SELECT {I}* FROM {P} UNION SELECT * FROM {T}{POST}", Base: "union-all"},
-		{Name: "union-by-name", Tmpl: "{C}SELECT {I}* FROM {P} UNION ALL BY NAME SELECT * FROM {T}{POST}", Base: "union-all"},
-		{Name: "intersect", Tmpl: "{C}SELECT {I}* FROM {P} INTERSECT SELECT * FROM {T}{POST}", Base: "union-all"},
 		{Name: "except", Tmpl: "{C}SELECT {I}* FROM {T} EXCEPT SELECT * FROM {P}{POST}", Base: "union-all"},
 	}
 	// every JOIN kind, adversarial table on the right (and, for plain JOIN, on the left)
@@ -59,13 +53,12 @@ func buildSkeletons() []skeleton {
 		core   bool
 	}
 	joins := []jk{
-		{"JOIN", " ON true", true}, {"INNER JOIN", " ON true", false}, {"LEFT JOIN", " ON true", true},
-		{"LEFT OUTER JOIN", " ON true", false}, {"RIGHT JOIN", " ON true", false}, {"RIGHT OUTER JOIN", " ON true", false},
-		{"FULL JOIN", " ON true", false}, {"FULL OUTER JOIN", " ON true", true}, {"CROSS JOIN", "", true},
-		{"NATURAL JOIN", "", true}, {"NATURAL LEFT JOIN", "", false}, {"SEMI JOIN", " ON true", true},
-		{"ANTI JOIN", " ON true", false}, {"ASOF JOIN", " USING (time)", true}, {"ASOF LEFT JOIN", " USING (time)", false},
-		{"POSITIONAL JOIN", "", true}, {"JOIN LATERAL", " ON true", true}, {"CROSS JOIN LATERAL", "", false},
-		{"LEFT JOIN LATERAL", " ON true", false}, {"LATERAL JOIN", " ON true", false},
+		{"JOIN", " ON true", true}, {"INNER JOIN", " ON true", false}, {"LEFT JOIN", " ON true", false},
+		{"RIGHT JOIN", " ON true", false},
+		{"FULL OUTER JOIN", " ON true", false}, {"CROSS JOIN", "", true},
+		{"NATURAL JOIN", "", false}, {"SEMI JOIN", " ON true", false},
+		{"ANTI JOIN", " ON true", false}, {"ASOF JOIN", " USING (time)", true},
+		{"POSITIONAL JOIN", "", false}, {"JOIN LATERAL", " ON true", true}, {"CROSS JOIN LATERAL", "", false},
 	}
 	for _, j := range joins {
 		name := "join:" + strings.ToLower(strings.ReplaceAll(j.kw, " ", "-"))
@@ -79,23 +72,20 @@ func buildSkeletons() []skeleton {
 	// table positions that are introduced by neither FROM nor JOIN
 	s = append(s,
 		skeleton{Name: "from-first", Tmpl: "{C}FROM {T}{POST}", Core: true},
-		skeleton{Name: "from-first-select", Tmpl: "{C}FROM {T} SELECT {I}*{POST}", Base: "from-first"},
 		skeleton{Name: "table-stmt", Tmpl: "{C}TABLE {T}{POST}", Core: true},
-		skeleton{Name: "table-in-subquery", Tmpl: "{C}SELECT {I}* FROM (TABLE {T}) s{POST}", Core: true, Base: "table-stmt"},
+		skeleton{Name: "table-in-subquery", Tmpl: "{C}SELECT {I}* FROM (TABLE {T}) s{POST}", Base: "table-stmt"},
 		skeleton{Name: "table-in-union", Tmpl: "{C}SELECT {I}* FROM {P} UNION ALL TABLE {T}{POST}", Base: "table-stmt"},
 		skeleton{Name: "table-in-cte", Tmpl: "{C}WITH c AS (TABLE {T}) SELECT {I}* FROM c{POST}", Base: "table-stmt"},
-		skeleton{Name: "table-in-where", Tmpl: "{C}SELECT {I}* FROM {P} WHERE EXISTS (TABLE {T}){POST}", Base: "table-stmt"},
 		skeleton{Name: "describe", Base: "table-stmt", Tmpl: "{C}DESCRIBE {T}{POST}", Core: true},
-		skeleton{Name: "describe-table", Tmpl: "{C}DESCRIBE TABLE {T}{POST}", Base: "describe"},
 		skeleton{Name: "show", Tmpl: "{C}SHOW {T}{POST}", Base: "describe"},
-		skeleton{Name: "summarize", Base: "table-stmt", Tmpl: "{C}SUMMARIZE {T}{POST}", Core: true},
+		skeleton{Name: "summarize", Base: "table-stmt", Tmpl: "{C}SUMMARIZE {T}{POST}"},
 		skeleton{Name: "pivot", Base: "table-stmt", Tmpl: "{C}PIVOT {T} ON host USING sum(value){POST}", Core: true},
 		skeleton{Name: "unpivot", Base: "pivot", Tmpl: "{C}UNPIVOT {T} ON value INTO NAME n VALUE v{POST}"},
 		skeleton{Name: "explain-analyze", Tmpl: "{C}EXPLAIN ANALYZE SELECT {I}* FROM {T}{POST}"},
 	)
 	// the GET endpoint that assembles its own statement around a caller-supplied WHERE fragment
 	s = append(s,
-		skeleton{Name: "get-where-in", Tmpl: "host IN (SELECT host FROM {T})", Core: true, Get: true},
+		skeleton{Name: "get-where-in", Tmpl: "host IN (SELECT host FROM {T})", Get: true},
 		skeleton{Name: "get-where-exists-table", Tmpl: "EXISTS (TABLE {T})", Core: true, Get: true, Base: "table-stmt"},
 		skeleton{Name: "get-where-comma", Tmpl: "EXISTS (SELECT 1 FROM db1.cpu \"where\", {T})", Get: true, Base: "get-where-in"},
 	)
@@ -126,11 +116,10 @@ type pathVariant struct {
 var pathVariants = []pathVariant{
 	{"glob", p0, true},
 	{"exact-file", "{ROOT}/db2/secrets/2024/01/01/00/secrets.parquet", true},
-	{"wildcard-db", "{ROOT}/*/secrets/**/*.parquet", true},
-	{"dotdot", "{ROOT}/db1/../db2/secrets/**/*.parquet", true},
+	{"wildcard-db", "{ROOT}/*/secrets/**/*.parquet", false},
+	{"dotdot", "{ROOT}/db1/../db2/secrets/**/*.parquet", false},
 	{"whole-root", "{ROOT}/**/*.parquet", true},
-	{"single-stars", "{ROOT}/db2/*/*/*/*/*/*.parquet", false},
-	{"double-slash", "{ROOT}//db2//secrets/**/*.parquet", false},
+		{"double-slash", "{ROOT}//db2//secrets/**/*.parquet", false},
 	{"file-scheme", "file://{ROOT}/db2/secrets/**/*.parquet", false},
 	{"authorised-db1", "{ROOT}/db1/cpu/**/*.parquet", true},
 }
@@ -141,13 +130,13 @@ var uniSpaces = []struct {
 	r    rune
 	core bool
 }{
-	{"U+00A0", 0x00A0, true}, {"U+0085", 0x0085, true}, {"U+1680", 0x1680, false}, {"U+180E", 0x180E, false},
+	{"U+00A0", 0x00A0, true}, {"U+0085", 0x0085, false}, {"U+1680", 0x1680, false}, {"U+180E", 0x180E, false},
 	{"U+2000", 0x2000, false}, {"U+2001", 0x2001, false}, {"U+2002", 0x2002, false}, {"U+2003", 0x2003, true},
 	{"U+2004", 0x2004, false}, {"U+2005", 0x2005, false}, {"U+2006", 0x2006, false}, {"U+2007", 0x2007, false},
-	{"U+2008", 0x2008, false}, {"U+2009", 0x2009, false}, {"U+200A", 0x200A, false}, {"U+200B", 0x200B, true},
-	{"U+200C", 0x200C, false}, {"U+200D", 0x200D, false}, {"U+2028", 0x2028, true}, {"U+2029", 0x2029, false},
+	{"U+2008", 0x2008, false}, {"U+2009", 0x2009, false}, {"U+200A", 0x200A, false}, {"U+200B", 0x200B, false},
+	{"U+200C", 0x200C, false}, {"U+200D", 0x200D, false}, {"U+2028", 0x2028, false}, {"U+2029", 0x2029, false},
 	{"U+202F", 0x202F, false}, {"U+205F", 0x205F, false}, {"U+2060", 0x2060, false}, {"U+3000", 0x3000, true},
-	{"U+FEFF", 0xFEFF, true},
+	{"U+FEFF", 0xFEFF, false},
 }
 
 func sqQuote(s string) string { return "'" + strings.ReplaceAll(s, "'", "''") + "'" }
@@ -181,6 +170,12 @@ func catalogTableFunctions() []string {
 	return out
 }
 
+// spellings applied to parquet_scan / read_csv / glob (read_parquet gets the whole table)
+var secondarySpellings = map[string]bool{"plain": true, "upper": true, "dq": true, "bt": true, "schema": true, "gap:space": true, "gap:newline": true,
+	"gap:formfeed": true, "gap:vtab": true, "gap:block-comment": true, "gap:line-comment": true, "gap:nested-comment": true,
+	"gap:unicode:U+00A0": true, "gap:unicode:U+3000": true, "arg:list": true, "arg:concat": true}
+var quickSecondary = map[string]bool{"plain": true, "dq": true, "gap:unicode:U+00A0": true, "gap:block-comment": true}
+
 var coreFns = []string{"read_parquet", "parquet_scan", "read_csv", "glob"}
 
 func fnArg(fn string) string {
@@ -203,8 +198,8 @@ func capitalizeSegments(s string) string {
 	return strings.Join(parts, "_")
 }
 
-var coreNames = map[string]bool{"dq-both": true, "dq-whole": true, "bt-both": true, "sq-whole": true, "dollar-whole": true, "comment-before-dot": true,
-	"comment-before-name": true, "nbsp-before-dot": true, "dq-dotdot-table": true, "ident-lookalike-db": true, "str-lookalike": true, "only": true}
+var coreNames = map[string]bool{"dq-both": true, "bt-both": true, "sq-whole": true, "comment-before-name": true, "nbsp-before-dot": true,
+	"dq-dotdot-table": true, "ident-lookalike-db": true, "only": true}
 
 func buildFillers(catalog []string) []filler {
 	var f []filler
@@ -237,7 +232,7 @@ func buildFillers(catalog []string) []filler {
 	for _, n := range names {
 		add("name:"+n.k, "name:"+n.k, n.t, "name:qualified", coreNames[n.k])
 	}
-	f = append(f, filler{Key: "name:dq-both-glued", Family: "name:glued", Text: `"db2"."secrets"`, Glue: true, BaseK: "name:dq-both", Core: true})
+	f = append(f, filler{Key: "name:dq-both-glued", Family: "name:glued", Text: `"db2"."secrets"`, Glue: true, BaseK: "name:dq-both"})
 
 	// --- quoted paths (replacement scans) ----------------------------------------------------------------
 	quoteStyles := []struct {
@@ -249,17 +244,20 @@ func buildFillers(catalog []string) []filler {
 		{"dq", func(p string) string { return `"` + p + `"` }, true},
 		{"bt", func(p string) string { return "`" + p + "`" }, true},
 		{"dollar", func(p string) string { return "$$" + p + "$$" }, true},
-		{"dollar-tag", func(p string) string { return "$p$" + p + "$p$" }, true},
+		{"dollar-tag", func(p string) string { return "$p$" + p + "$p$" }, false},
 		{"estr", func(p string) string { return "E'" + p + "'" }, true},
 		{"estr-lower", func(p string) string { return "e'" + p + "'" }, false},
 		{"estr-hex-escape", func(p string) string { return "E'" + strings.Replace(p, "secrets", `sec\x72ets`, 1) + "'" }, true},
 		{"estr-escaped-quote", func(p string) string { return `E'\'` + p + "'" }, false},
-		{"ustr", func(p string) string { return "U&'" + strings.Replace(p, "secrets", `sec\0072ets`, 1) + "'" }, true},
-		{"sq-adjacent", func(p string) string { i := len(p) / 2; return "'" + p[:i] + "'\n'" + p[i:] + "'" }, true},
+		{"ustr", func(p string) string { return "U&'" + strings.Replace(p, "secrets", `sec\0072ets`, 1) + "'" }, false},
+		{"sq-adjacent", func(p string) string { i := len(p) / 2; return "'" + p[:i] + "'\n'" + p[i:] + "'" }, false},
 		{"sq-backslash-tail", func(p string) string { return "'" + p + `\'` }, false},
 	}
 	for _, pv := range pathVariants {
 		for _, qs := range quoteStyles {
+			if pv.name != "glob" && qs.k != "sq" && qs.k != "dq" && qs.k != "dollar" && qs.k != "estr" {
+				continue
+			}
 			base := "path:" + qs.k + ":glob"
 			if pv.name == "glob" {
 				base = "path:sq:glob"
@@ -272,7 +270,7 @@ func buildFillers(catalog []string) []filler {
 	}
 	f = append(f, filler{Key: "path:sq-glued", Family: "path:glued", Text: "'" + p0 + "'", Glue: true, BaseK: "path:sq:glob", Core: true})
 	f = append(f, filler{Key: "path:dq-glued", Family: "path:glued", Text: `"` + p0 + `"`, Glue: true, BaseK: "path:dq:glob", Core: true})
-	f = append(f, filler{Key: "path:dollar-glued", Family: "path:glued", Text: "$$" + p0 + "$$", Glue: true, BaseK: "path:dollar:glob", Core: true})
+	f = append(f, filler{Key: "path:dollar-glued", Family: "path:glued", Text: "$$" + p0 + "$$", Glue: true, BaseK: "path:dollar:glob"})
 	add("path:sq-only", "path:only", "ONLY '"+p0+"'", "path:sq:glob", true)
 	add("path:sq-lateral", "path:lateral", "LATERAL '"+p0+"'", "path:sq:glob", false)
 	add("path:sq-parenthesised", "path:parenthesised", "('"+p0+"')", "path:sq:glob", false)
@@ -289,7 +287,7 @@ func buildFillers(catalog []string) []filler {
 	spellings := []spelling{
 		{"plain", call("%", ""), true},
 		{"upper", func(fn, a string) string { return strings.ToUpper(fn) + "(" + sqQuote(a) + ")" }, true},
-		{"mixed-case", func(fn, a string) string { return capitalizeSegments(fn) + "(" + sqQuote(a) + ")" }, true},
+		{"mixed-case", func(fn, a string) string { return capitalizeSegments(fn) + "(" + sqQuote(a) + ")" }, false},
 		{"dq", call(`"%"`, ""), true},
 		{"dq-upper", func(fn, a string) string { return `"` + strings.ToUpper(fn) + `"(` + sqQuote(a) + ")" }, false},
 		{"bt", call("`%`", ""), true},
@@ -297,13 +295,13 @@ func buildFillers(catalog []string) []filler {
 		{"catalog-schema", call("system.main.%", ""), false},
 		{"schema-dq", call(`"main"."%"`, ""), false},
 		{"schema-spaced", call("main . %", " "), false},
-		{"gap:space", call("%", " "), true}, {"gap:tab", call("%", "\t"), true}, {"gap:newline", call("%", "\n"), true},
+		{"gap:space", call("%", " "), true}, {"gap:tab", call("%", "\t"), false}, {"gap:newline", call("%", "\n"), false},
 		{"gap:cr", call("%", "\r"), false}, {"gap:formfeed", call("%", "\f"), true}, {"gap:vtab", call("%", "\v"), true},
 		{"gap:block-comment", call("%", "/**/"), true}, {"gap:block-comment-spaced", call("%", " /* x */ "), false},
-		{"gap:line-comment", call("%", "--x\n"), true}, {"gap:nested-comment", call("%", "/*/**/*/"), true},
+		{"gap:line-comment", call("%", "--x\n"), false}, {"gap:nested-comment", call("%", "/*/**/*/"), false},
 		{"gap:comment-with-quote", call("%", "/*'*/"), true},
 		{"arg:list", func(fn, a string) string { return fn + "([" + sqQuote(a) + "])" }, true},
-		{"arg:dollar", func(fn, a string) string { return fn + "($$" + a + "$$)" }, true},
+		{"arg:dollar", func(fn, a string) string { return fn + "($$" + a + "$$)" }, false},
 		{"arg:estr", func(fn, a string) string { return fn + "(E" + sqQuote(a) + ")" }, false},
 		{"arg:concat", func(fn, a string) string { i := len(a) / 2; return fn + "(" + sqQuote(a[:i]) + " || " + sqQuote(a[i:]) + ")" }, true},
 		{"arg:spaced", func(fn, a string) string { return fn + "(\n" + sqQuote(a) + " )" }, false},
@@ -328,10 +326,12 @@ func buildFillers(catalog []string) []filler {
 			// catalog function gets the plain form and one representative of each disguise class
 			if !isCoreFn[fn] {
 				switch sp.k {
-				case "plain", "dq", "gap:unicode:U+00A0", "gap:block-comment", "schema":
+				case "plain", "dq", "gap:unicode:U+00A0":
 				default:
 					continue
 				}
+			} else if fn != "read_parquet" && !secondarySpellings[sp.k] {
+				continue
 			}
 			fam := "fn-spelling:" + sp.k
 			if strings.HasPrefix(sp.k, "gap:unicode:") {
@@ -343,7 +343,7 @@ func buildFillers(catalog []string) []filler {
 			} else if strings.HasPrefix(sp.k, "gap:unicode:") && sp.k != "gap:unicode:U+00A0" {
 				base = "fn:" + fn + ":gap:unicode:U+00A0"
 			}
-			core := sp.core && isCoreFn[fn]
+			core := sp.core && (fn == "read_parquet" || (isCoreFn[fn] && quickSecondary[sp.k]) || sp.k == "plain")
 			add("fn:"+fn+":"+sp.k, fam, sp.mk(fn, fnArg(fn)), base, core)
 		}
 	}
@@ -416,84 +416,72 @@ type decoy struct {
 	Parts  []string // names of the simpler decoys this one combines (tried when minimising)
 	Base   string   // name of a sibling decoy of the same kind tried when minimising
 	ASet   bool     // A is meaningful even when empty
+	AltI   string   // table-alias decoys: the select-list decoy that plays the same trick (tried when minimising)
 }
 
 func buildDecoys() []decoy {
 	d := []decoy{
 		{Name: "none", Core: true},
 		// quote characters inside comments
-		{Name: "block-comment-single-quote", C: "/* ' */ ", Core: true},
+		{Name: "block-comment-single-quote", Core: true, C: "/* ' */ "},
 		{Name: "block-comment-double-quote", C: `/* " */ `},
-		{Name: "block-comment-backtick", C: "/* ` */ "},
-		{Name: "block-comment-dollar-quote", C: "/* $$ */ ", Core: true},
-		{Name: "line-comment-single-quote", C: "-- '\n", Core: true},
-		{Name: "line-comment-double-quote", C: "-- \"\n"},
-		{Name: "nested-comment-quote-inside", C: "/* /* ' */ */ ", Core: true},
+		{Name: "block-comment-dollar-quote", C: "/* $$ */ "},
+		{Name: "line-comment-single-quote", Core: true, C: "-- '\n"},
+		{Name: "nested-comment-quote-inside", C: "/* /* ' */ */ "},
 		{Name: "nested-comment-quote-after-inner", C: "/* /* */ ' */ "},
 		{Name: "nested-comment-compact", C: "/*/**/*/ "},
 		{Name: "comment-from-authorised", C: "/* FROM db1.cpu */ "},
-		{Name: "comment-read_parquet", C: "/* read_parquet */ ", Core: true},
-		{Name: "comment-semicolon", C: "/* ; */ "},
-		{Name: "trailing-line-comment-quote", Post: " --'", Core: true},
+		{Name: "comment-read_parquet", Core: true, C: "/* read_parquet */ "},
+		{Name: "trailing-line-comment-quote", Core: true, Post: " --'"},
 		{Name: "trailing-open-block-comment", Post: " /* '"},
-		{Name: "trailing-semicolon", Post: ";", Core: true},
-		{Name: "trailing-semicolon-comment", Post: "; -- x"},
+		{Name: "trailing-semicolon", Post: ";"},
 		// comment markers and other structure inside string literals
-		{Name: "literal-line-comment-marker", I: "'--' AS d, ", Core: true},
+		{Name: "literal-line-comment-marker", Core: true, I: "'--' AS d, "},
 		{Name: "literal-block-comment-open", I: "'/*' AS d, "},
-		{Name: "literal-block-comment-close", I: "'*/' AS d, "},
 		{Name: "literal-block-comment-pair", I: "'/*' AS d, ", Post: " /* '*/' */"},
-		{Name: "literal-semicolon", I: "';' AS d, "},
 		{Name: "literal-from-authorised", I: "'FROM db1.cpu' AS d, "},
-		{Name: "literal-read_parquet", I: "'read_parquet' AS d, ", Core: true},
-		{Name: "alias-read_parquet", I: "1 AS read_parquet, "},
+		{Name: "literal-read_parquet", Core: true, Base: "comment-read_parquet", I: "'read_parquet' AS d, "},
+		{Name: "alias-read_parquet", Base: "comment-read_parquet", I: "1 AS read_parquet, "},
 		{Name: "literal-doubled-quote", I: "'''' AS d, "},
 		// backslashes before quotes
-		{Name: "literal-backslash", I: `'\' AS d, `, Core: true},
-		{Name: "literal-backslash-then-comment-quote", I: `'a\' AS d, `, Post: " --'", Core: true, Parts: []string{"literal-backslash", "trailing-line-comment-quote"}},
+		{Name: "literal-backslash", Core: true, I: `'\' AS d, `},
+		{Name: "literal-backslash-then-comment-quote", I: `'a\' AS d, `, Post: " --'", Parts: []string{"literal-backslash", "trailing-line-comment-quote"}},
 		{Name: "estring-escaped-quote", I: `E'\'' AS d, `},
 		{Name: "estring-escaped-backslash", I: `E'\\' AS d, `},
-		{Name: "estring-after-identifier-byte", I: `1E'x' AS d, `},
 		// dollar quotes
 		{Name: "dollar-quoted-single-quote", I: "$$'$$ AS d, "},
 		{Name: "dollar-tagged-single-quote", I: "$x$'$x$ AS d, "},
 		{Name: "dollar-in-identifier", I: "1 AS a$$b, ", Post: " --$$"},
-		{Name: "literal-dollar-param", I: "'$1' AS d, "},
 		// placeholder look-alikes
 		{Name: "literal-str-lookalike", I: "'__STR_0__' AS d, "},
 		{Name: "alias-str-lookalike", I: "1 AS __STR_0__, "},
-		{Name: "alias-ident-lookalike", I: "1 AS __IDENT_0__, ", Core: true},
+		{Name: "alias-ident-lookalike", I: "1 AS __IDENT_0__, "},
 		{Name: "quoted-ident-lookalike", I: `1 AS "__IDENT_0__", `},
-		{Name: "alias-frommask-lookalike", I: "1 AS __FROM_MASK_0__, "},
-		{Name: "quoted-db2-then-lookalike", I: `1 AS "db2", `, Core: true},
-		{Name: "quoted-secrets-then-lookalike", I: `1 AS "secrets", `},
+		{Name: "quoted-db2-then-lookalike", Core: true, I: `1 AS "db2", `},
 		{Name: "extract-from", I: "EXTRACT(YEAR FROM TIMESTAMP '2024-01-01 00:00:00') AS y, "},
 		// structure inside quoted identifiers
-		{Name: "identifier-single-quote", I: `1 AS "'", `, Core: true},
+		{Name: "identifier-single-quote", Core: true, I: `1 AS "'", `},
 		{Name: "identifier-single-quote-closed", I: `1 AS "'", `, Post: " --'", Parts: []string{"identifier-single-quote", "trailing-line-comment-quote"}},
-		{Name: "identifier-line-comment-marker", Base: "identifier-single-quote", I: `1 AS "--", `, Core: true},
-		{Name: "identifier-block-comment-open", Base: "identifier-single-quote", I: `1 AS "/*", `, Core: true},
-		{Name: "identifier-backtick", Base: "identifier-single-quote", I: "1 AS \"`\", ", Core: true},
-		{Name: "identifier-doubled-quote", Base: "identifier-single-quote", I: `1 AS "a""b", `},
+		{Name: "identifier-line-comment-marker", Base: "identifier-single-quote", I: `1 AS "--", `},
+		{Name: "identifier-block-comment-open", Base: "identifier-single-quote", I: `1 AS "/*", `},
+		{Name: "identifier-backtick", Core: true, Base: "identifier-single-quote", I: "1 AS \"`\", "},
 		{Name: "identifier-open-paren", Base: "identifier-single-quote", I: `1 AS "(", `},
-		{Name: "identifier-close-paren", Base: "identifier-single-quote", I: `1 AS ")", `},
 		{Name: "identifier-from-keyword", Base: "identifier-single-quote", I: `1 AS "from", `},
-		{Name: "identifier-dollar-quote", Base: "identifier-single-quote", I: `1 AS "$$", `},
 		// aliases of the authorised table that is joined with the adversarial one
-		{Name: "table-alias-quoted-where", A: ` "where"`, Core: true},
+		{Name: "table-alias-quoted-where", Core: true, A: ` "where"`},
 		{Name: "table-alias-as-quoted-limit", Base: "table-alias-quoted-where", A: ` AS "limit"`},
-		{Name: "table-alias-quoted-open-paren", Base: "table-alias-quoted-where", A: ` "("`, Core: true},
-		{Name: "table-alias-quoted-single-quote", Base: "table-alias-quoted-where", A: ` "'"`, Core: true},
-		{Name: "table-alias-quoted-line-comment", Base: "table-alias-quoted-where", A: ` "--"`},
-		{Name: "table-alias-quoted-block-comment", Base: "table-alias-quoted-where", A: ` "/*"`},
+		{Name: "table-alias-quoted-open-paren", Base: "table-alias-quoted-where", A: ` "("`},
+		{Name: "table-alias-quoted-single-quote", Core: true, AltI: "identifier-single-quote", Base: "table-alias-quoted-where", A: ` "'"`},
+		{Name: "table-alias-quoted-line-comment", AltI: "identifier-line-comment-marker", Base: "table-alias-quoted-where", A: ` "--"`},
 		{Name: "table-alias-with-columns", A: " AS a(x, y, z)"},
-		{Name: "table-alias-tablesample", A: " a TABLESAMPLE 100%"},
 		{Name: "table-alias-none", A: "", ASet: true},
-		{Name: "on-struct-field-named-where", OnTail: " AND ({'where': 1}).where = 1", Core: true},
+		{Name: "on-struct-field-named-where", Core: true, OnTail: " AND ({'where': 1}).where = 1"},
 		{Name: "on-struct-field-named-order", Base: "on-struct-field-named-where", OnTail: " AND ({'order': 1}).order = 1"},
 	}
 	for _, kw := range []string{"group", "having", "order", "limit", "offset", "window", "qualify", "union", "except", "intersect", "fetch", "for"} {
 		d = append(d, decoy{Name: "table-alias-quoted-" + kw, A: ` "` + kw + `"`, Base: "table-alias-quoted-where"})
+	}
+	for _, kw := range []string{"qualify", "fetch", "window"} { // terminator keywords spelled bare (rejected by DuckDB's grammar when reserved)
 		d = append(d, decoy{Name: "table-alias-bare-" + kw, A: " " + kw})
 	}
 	return d
